@@ -26,6 +26,7 @@ type lockLocal struct {
 type lockEntry struct {
 	Params []string    `json:"params"`
 	Locals []lockLocal `json:"locals"`
+	Loops  []string    `json:"loops,omitempty"` // source line (blanks removed) of each loop head, by loop ordinal
 }
 
 func namedLocals(fn *ssa.Function) []lockLocal {
@@ -65,6 +66,7 @@ func cmdLock(args []string) int {
 			e.Params = append(e.Params, p.Name())
 		}
 		e.Locals = namedLocals(fn)
+		e.Loops = loopHeaders(prog, fn)
 		lock[lockKeyOf(fn)] = e
 	}
 	// the named functions and methods every package with contracts had when the lock was written: a contract-less function
@@ -263,4 +265,18 @@ func (p *Program) isNewFunction(fn *ssa.Function) bool {
 	n := relName(fn)
 	i := sort.SearchStrings(e.Params, n)
 	return !(i < len(e.Params) && e.Params[i] == n)
+}
+
+// loopHeaders: for every loop of fn, by ordinal, the source line its head sits on with blanks removed (what `loop k`
+// clauses are re-attached by when an edit removes or moves a loop).
+func loopHeaders(prog *Program, fn *ssa.Function) []string {
+	ex := &Exec{prog: prog, loopInfo: map[*ssa.Function]*loopAnalysis{}}
+	la := ex.loops(fn)
+	out := make([]string, len(la.heads))
+	for _, li := range la.heads {
+		if li.ordinal >= 0 && li.ordinal < len(out) {
+			out[li.ordinal] = strings.Join(strings.Fields(sourceLine(prog, li.pos)), "")
+		}
+	}
+	return out
 }
